@@ -85,6 +85,7 @@ type Node struct {
 	Up                 bool // accepts connections
 	Blackhole          bool // dials hang, traffic is swallowed
 	Stalled            bool // receives requests but never answers (not even heartbeats)
+	FailPeersQueries   int  // the next so many system.peers queries are answered with an error (system.local works): a refresh that fails half-way
 	FailControlQueries bool // answers system.local / system.peers with an error (a contact point that cannot serve)
 	InCluster          bool // listed in system tables of the other nodes
 	MaxVersion         primitive.ProtocolVersion
@@ -421,6 +422,11 @@ func (c *BackendConn) handleQuery(raw []byte, frm *frame.Frame, msg *message.Que
 	case n.FailControlQueries && (uq == "SELECT * FROM SYSTEM.LOCAL" || uq == "SELECT * FROM SYSTEM.PEERS"):
 		// a node that completes the handshake but cannot serve its system tables
 		w.Stat("fault.control-query-fails")
+		c.replyNow(stream, &message.Overloaded{ErrorMessage: "overloaded"})
+		return
+	case n.FailPeersQueries > 0 && uq == "SELECT * FROM SYSTEM.PEERS":
+		n.FailPeersQueries--
+		w.Stat("fault.peers-query-fails")
 		c.replyNow(stream, &message.Overloaded{ErrorMessage: "overloaded"})
 		return
 	case uq == "SELECT * FROM SYSTEM.LOCAL":
